@@ -301,3 +301,67 @@ Fixpoint evs_eqb (a b : list ev) : bool :=
 (** a correspondence case: configuration, scenario, observed trace *)
 Definition case_ok (k : cfg * req * list ev) : bool :=
   let '(c, r, obs) := k in evs_eqb (trace c r) obs.
+
+(** ** _ResponseIterator, statement by statement, with a close callback that may raise
+    (a listener of wsgi_close fails, or a handle in ctx.files fails to close).  The order of
+    "mark closed" and "run the callback" is the one of the working tree (Gen/WsgiReader.v,
+    [ri_close_steps]); [fin] = the events of the callback, [raises] = it ends by raising. *)
+Fixpoint ri_run (steps : list ri_step) (closed : bool) (fin : list ev) (raises : bool) : list ev * bool :=
+  match steps with
+  | [] => ([], closed)
+  | RiMark :: s => ri_run s true fin raises
+  | RiCall :: s => if raises then (fin, closed)
+                   else let '(e, c) := ri_run s closed fin raises in (fin ++ e, c)
+  end.
+
+(** close(): (events, value of the closed flag afterwards) *)
+Definition ri_close (closed : bool) (fin : list ev) (raises : bool) : list ev * bool :=
+  if closed then ([], true) else ri_run ri_close_steps false fin raises.
+
+(** one close() call by the server, with the exception it sees *)
+Definition close_call (closed : bool) (fin : list ev) (raises : bool) : list ev * bool :=
+  let '(e, c) := ri_close closed fin raises in
+  (e ++ (if negb closed && raises then [Raise OtherExn] else []), c).
+
+(** the server: [take] chunks (or all), then close() if conforming; when the iteration or that
+    close() raised it still calls close() (wsgiref's BaseHandler: finally: result.close()) *)
+Fixpoint serve_it (chunks : list Z) (fails : bool) (fin : list ev) (raises : bool)
+         (take : option nat) (closes : bool) {struct chunks} : list ev :=
+  match take with
+  | Some O => if closes then
+                let '(e1, c) := close_call false fin raises in
+                e1 ++ (if raises then fst (close_call c fin raises) else [])
+              else []
+  | _ =>
+      match chunks with
+      | [] => (* __next__: except BaseException: self.close(); raise *)
+          let '(e, c) := ri_close false fin raises in
+          e ++ (if raises || fails then [Raise OtherExn] else [])
+            ++ (if closes then fst (close_call c fin raises) else [])
+      | n :: rest => Chunk n :: serve_it rest fails fin raises (option_map Nat.pred take) closes
+      end
+  end.
+
+Inductive cfail := CFListener (* a wsgi_close listener raises *) | CFFile (* a ctx.files handle fails to close *).
+Definition is_wsgiclose (e : ev) := match e with WsgiClose => true | _ => false end.
+(** MethodContext.close fires method_context_closed, then closes the files; __finalize fires wsgi_close after it *)
+Definition fin_cf (cf : cfail) (fin : list ev) : list ev :=
+  match cf with CFListener => fin | CFFile => [CtxClose] end.
+Definition raises_cf (cf : cfail) (fin : list ev) : bool :=
+  match cf with CFListener => existsb is_wsgiclose fin | CFFile => true end.
+
+Definition respond_cf (rs : resp) (take : option nat) (closes : bool) (cf : cfail) : list ev :=
+  match rs with
+  | Escapes e => [Raise e]
+  | Diverges => []
+  | Responds k cl ch f fin => Start k cl :: serve_it ch f (fin_cf cf fin) (raises_cf cf fin) take closes
+  end.
+
+Definition trace_cf (c : cfg) (r : req) (cf : cfail) : list ev :=
+  let o := run c r in
+  map (fun p => Read (fst p) (snd p)) (o_reads o)
+      ++ (if o_user o then [User] else [])
+      ++ respond_cf (o_resp o) (take r) (closes r) cf.
+
+Definition case_cf_ok (k : cfg * req * cfail * list ev) : bool :=
+  let '(c, r, cf, obs) := k in evs_eqb (trace_cf c r cf) obs.
